@@ -464,8 +464,14 @@ def gen_cases(rng, tier):
         else:
             colmap = None if body == "BC" else {outs[0]: outs[0]}  # BC: unmapped clash when `a` is looped
         lens_seq = [{k: rng.randint(1, 3) for k in looped} for _ in range(rng.choice([1, 2]))]
-        yield _mk_case(rng, body, roles, rng.random() < 0.5, colmap, rng.random() < 0.75, "for_node",
-                       False, lens_seq)
+        case = _mk_case(rng, body, roles, rng.random() < 0.5, colmap, rng.random() < 0.75, "for_node",
+                        False, lens_seq)
+        if rng.random() < 0.15:
+            # a label looped twice (iterated twice, or iterated and zipped): two columns of one name as well
+            case["colmap"] = None if body != "BC" else {"a": "out_a"}
+            tgt = rng.choice(["iter", "zip"])
+            case[tgt] = case[tgt] + [rng.choice(looped)]
+        yield case
 
     # 6. dictionary_to_index_maps directly
     keys = ["a", "b", "c", "x"]
@@ -927,7 +933,7 @@ def oracle(case, r):
     if any(x not in spec["outputs"] for x in colmap):
         return fails  # (a map with unknown keys is documented to be refused; never reached)
     cols = looped + [colmap.get(o, o) for o in spec["outputs"]]
-    collide = len(set(cols)) != len(cols) and len(set(looped)) == len(looped)
+    collide = len(set(cols)) != len(cols)
     vals = {x: v for x, v in spec["defaults"].items() if x not in looped}
     vals.update(case["init"])
     for k, (run, ro) in enumerate(zip(case["runs"], r["runs"])):
@@ -943,7 +949,7 @@ def oracle(case, r):
                        else f"{ro['res']} {ro['err'][:80]}")
                 fails.append(_f("colliding-columns", case, k, f"column map {case['colmap']} over looped {looped} gives "
                                 f"the names {cols}; the class was created and the run gave: {got}",
-                                trigger="colmap"))
+                                trigger="colmap", looped_twice=len(set(looped)) != len(looped)))
                 break
             continue
         if any(x not in vals for x in spec["inputs"]):
